@@ -1,13 +1,25 @@
-import itertools, random
+"""Tie between lean/ZeepModel/Xsd/BindKw.lean (keyword pass of _process_signature over non-repeating choices whose branches are
+elements or sequences of elements; Choice.render from the bound fields) and zeep."""
+import itertools
+import random
 from lxml import etree
 
+# a branch of a choice is a list of names: one name = an element declaration, several = a sequence of element declarations;
+# a name ending in "?" is an optional member (minOccurs="0")
 KW_SHAPES = [
-    ([("elem", "amount"), ("choice", ["card", "iban", "voucher"])], ["id"]),
-    ([("choice", ["a", "b"]), ("elem", "m"), ("choice", ["c", "d", "e"])], []),
+    ([("elem", "amount"), ("choice", [["card"], ["iban"], ["voucher"]])], ["id"]),
+    ([("choice", [["a"], ["b"]]), ("elem", "m"), ("choice", [["c"], ["d"], ["e"]])], []),
     ([("elem", "x"), ("elem", "y")], ["k"]),
-    ([("choice", ["p", "q", "r", "s"])], ["t"]),
-    ([("elem", "first"), ("choice", ["left", "right"]), ("elem", "last")], ["u", "w"]),
+    ([("choice", [["p"], ["q"], ["r"], ["s"]])], ["t"]),
+    ([("elem", "first"), ("choice", [["left"], ["right"]]), ("elem", "last")], ["u", "w"]),
+    ([("elem", "amount"), ("choice", [["card"], ["iban", "bic?"], ["voucher"]])], ["id"]),
+    ([("choice", [["s1", "s2?", "s3"], ["t1", "t2"]])], []),
+    ([("choice", [["u1", "u2"], ["solo"]]), ("elem", "mid"), ("choice", [["v1"], ["w1?", "w2"]])], ["z"]),
 ]
+
+
+def nm(n):
+    return n.rstrip("?")
 
 
 def kw_schema(items, attrs):
@@ -16,18 +28,29 @@ def kw_schema(items, attrs):
         if kind == "elem":
             parts.append('<xs:element name="%s" type="xs:string" minOccurs="0"/>' % x)
         else:
-            parts.append('<xs:choice minOccurs="0">%s</xs:choice>' % "".join('<xs:element name="%s" type="xs:string"/>' % b for b in x))
+            def branch(b):
+                els = "".join('<xs:element name="%s" type="xs:string"%s/>' % (nm(n), ' minOccurs="0"' if n.endswith("?") else "") for n in b)
+                return els if len(b) == 1 else "<xs:sequence>%s</xs:sequence>" % els
+            parts.append('<xs:choice minOccurs="0">%s</xs:choice>' % "".join(branch(b) for b in x))
     return ('<xs:schema xmlns:xs="http://www.w3.org/2001/XMLSchema" targetNamespace="urn:kw" elementFormDefault="qualified">'
             '<xs:element name="sig"><xs:complexType><xs:sequence>%s</xs:sequence>%s</xs:complexType></xs:element></xs:schema>'
             % ("".join(parts), "".join('<xs:attribute name="%s" type="xs:string"/>' % a for a in attrs)))
 
 
+def all_names(items, attrs):
+    return [n for kind, x in items for n in ([x] if kind == "elem" else [nm(m) for b in x for m in b])] + list(attrs)
+
+
 def kw_calls(items, attrs, rng, cap):
-    names = [n for kind, x in items for n in ([x] if kind == "elem" else x)] + list(attrs)
+    names = all_names(items, attrs)
     spell = ("absent", "none", "empty", "val")
-    combos = list(itertools.product(spell, repeat=len(names)))
-    if len(combos) > cap:
-        combos = [combos[i] for i in sorted(rng.sample(range(len(combos)), cap))]
+    if 4 ** len(names) <= 3 * cap:
+        combos = list(itertools.product(spell, repeat=len(names)))
+        if len(combos) > cap:
+            combos = [combos[i] for i in sorted(rng.sample(range(len(combos)), cap))]
+    else:
+        # mostly-conforming draws: a random call with at most a few values, so that accepted calls are well represented
+        combos = [tuple(rng.choice(spell if rng.random() < 0.5 else ("absent", "none")) for _ in names) for _ in range(cap)]
     for combo in combos:
         kw = []
         for n, c in zip(names, combo):
@@ -49,15 +72,18 @@ def kw_calls(items, attrs, rng, cap):
         yield kw
 
 
+def _has(v):
+    return not (v is None or (isinstance(v, (list, dict)) and not v))
+
+
 def kw_expect(items, attrs, kw):
     """the statement: 'refuse' / 'accept' for a keyword-only call"""
     d = dict(kw)
-    declared = {n for kind, x in items for n in ([x] if kind == "elem" else x)} | set(attrs)
-    has = lambda v: not (v is None or (isinstance(v, (list, dict)) and not v))   # noqa
+    declared = set(all_names(items, attrs))
     if any(k not in declared for k in d):
         return "refuse"
     for kind, x in items:
-        if kind == "choice" and sum(1 for b in x if b in d and has(d[b])) >= 2:
+        if kind == "choice" and sum(1 for b in x if any(nm(m) in d and _has(d[nm(m)]) for m in b)) >= 2:
             return "refuse"
     return "accept"
 
@@ -73,7 +99,9 @@ def kw_tie(ctx, res, model_run):
     pending = []
     for items, attrs in KW_SHAPES:
         zs = zeep.xsd.Schema(etree.fromstring(kw_schema(items, attrs).encode()))
-        ty = zs.get_element("{urn:kw}sig").type
+        el = zs.get_element("{urn:kw}sig")
+        ty = el.type
+        choices = [x for kind, x in items if kind == "choice"]
         for kw in kw_calls(items, attrs, rng, ctx.n(250, 4000)):
             case = dict(kind="kw", items=items, attrs=attrs, kw=[[k, v] for k, v in kw])
             res.case(key=("kw", repr(items), repr(kw)), nontrivial=True)
@@ -91,15 +119,52 @@ def kw_tie(ctx, res, model_run):
                                          else "a conforming keyword call is refused: %s" % (got,), case=case))
                 continue
             if out == "accept":
-                lost = [k for k, v in kw if not (v is None or v == []) and got.get(k) != v]
+                lost = [k for k, v in kw if _has(v) and got.get(k) != v]
                 if lost:
                     res.failures.append(dict(what="supplied keyword(s) %s not bound to the caller's value: %r" % (lost, got), case=case))
                     continue
-            pending.append(({"op": "bind.kw", "items": [dict(k="elem", name=x) if kind == "elem" else dict(k="choice", branches=x) for kind, x in items],
-                             "attrs": attrs, "kw": [[k, kw_mval(v)] for k, v in kw]}, out, got, case))
+            mitems = [dict(k="elem", name=x) if kind == "elem" else dict(k="choice", branches=[[nm(m) for m in b] for b in x]) for kind, x in items]
+            mop = {"op": "bind.kw", "items": mitems, "attrs": attrs, "kw": [[k, kw_mval(v)] for k, v in kw]}
+            rendered = None
+            render_ops = []
+            if out == "accept" and choices and not any(v == [] for _, v in kw):
+                # what zeep emits for every choice of the signature when the value object is rendered
+                res.count("kw:rendered")
+                try:
+                    parent = etree.Element("p")
+                    el.render(parent, el(**dict(kw)))
+                    rendered = []
+                    for ch in choices:
+                        cnames = [nm(m) for b in ch for m in b]
+                        r = [[etree.QName(c).localname, c.text or ""] for c in parent[0] if etree.QName(c).localname in cnames]
+                        given = {k: v for k, v in kw if _has(v) and k in cnames}
+                        if dict(r) != given:
+                            res.failures.append(dict(what="the XML of the choice %r is not the data the caller gave for its branch %r" % (r, given), case=case))
+                        rendered.append(r)
+                except Exception as e:  # noqa
+                    rendered = type(e).__name__
+                for ch in choices:
+                    render_ops.append(dict(mop, render={"branches": [[dict(name=nm(m), optional=m.endswith("?")) for m in b] for b in ch], "optional": True}))
+            pending.append((mop, out, got, None, case))
+            if render_ops:
+                pending.append((render_ops, out, got, rendered, case))
     if model_run and pending:
-        outs = model_run([p[0] for p in pending])
-        for (mop, out, got, case), mo in zip(pending, outs):
+        flat = []
+        for p in pending:
+            flat.extend(p[0] if isinstance(p[0], list) else [p[0]])
+        flat_outs = iter(model_run(flat))
+        for (mop, out, got, rendered, case) in pending:
+            if isinstance(mop, list):
+                ms = [next(flat_outs).get("ok") or {} for _ in mop]
+                mr = [m.get("rendered") for m in ms]
+                if any(isinstance(x, str) for x in mr):
+                    mr = "ValidationError"
+                else:
+                    mr = [[[k, v["leaf"]] for k, v in x] for x in mr]
+                if mr != rendered:
+                    res.disagreements.append(dict(relation="BindKw.renderChoice vs the XML zeep renders for the choices", case=case, model=mr, impl=rendered))
+                continue
+            mo = next(flat_outs)
             m = mo.get("ok")
             if m is None:
                 res.disagreements.append(dict(relation="driver error", case=case, model=mo))
